@@ -11,8 +11,8 @@ import json, os, subprocess, sys
 from concurrent.futures import ThreadPoolExecutor
 from pathlib import Path
 V = Path(__file__).resolve().parent.parent
-RELATED = {"C01": "C01,C12,C03", "C02": "C02,C15", "C03": "C03,C01,C12,C05", "C04": "C04,C03,C17", "C05": "C05,C17,C16", "C06": "C06,C16",
-           "C07": "C07,C01", "C08": "C08,C03", "C09": "C09,C10", "C10": "C10,C09", "C11": "C11,C01", "C12": "C12,C01,C04", "C13": "C13,C10",
+RELATED = {"C01": "C01,C12,C03", "C02": "C02,C15", "C03": "C03,C01,C12,C05", "C04": "C04,C03,C17,C01,C14", "C05": "C05,C17,C16", "C06": "C06,C16",
+           "C07": "C07,C01,C03", "C08": "C08,C03", "C09": "C09,C10", "C10": "C10,C09", "C11": "C11,C01", "C12": "C12,C01,C04", "C13": "C13,C10",
            "C14": "C14,C18", "C15": "C15,C02", "C16": "C16,C05,C04", "C17": "C17,C04,C05", "C18": "C18,C14", "C19": "C19,C01,C13"}
 
 
